@@ -405,6 +405,7 @@ func body(s *simrt.Sim, tier string) {
 func TestWorker(t *testing.T) {
 	common.Main(t, common.Harness{
 		ID:           "C19",
+		SeedCrypto:   true,
 		DelayPalette: []time.Duration{100 * time.Millisecond, time.Second},
 		MaxDelay:     maxInjected,
 		Body:         body,
